@@ -302,6 +302,8 @@ class Abstraction:
             ps = {p for k, p in out if k == kind}
             if ps:
                 labels.append(kind + " " + (self.BOTH if len(ps) > 1 else ps.pop()))
+        if site.get("posclass"):
+            labels.append(site["posclass"])
         return " + ".join(labels)
 
     @staticmethod
